@@ -55,8 +55,63 @@ def gen_data(rng, n):
 
 
 def run(ctx):
+    impl = os.path.join(ctx.bdir, "harness", "implcompress")
+    # one write() call of 2^32 + k bytes (zlib's avail_in is 32 bits wide; the stream class must cut the call up) runs in the background:
+    # 4 GiB really go through deflate, about 40 s
+    import threading
+    hops = ["z.writehuge gzip %d" % ((1 << 32) + 123457)] + ([] if ctx.tier == "quick" else ["z.writehuge gzip %d" % (1 << 32), "z.writehuge bzip2 %d" % ((1 << 32) + 5)])
+    hres = {}
+
+    def _huge():
+        try:
+            hres["out"] = pvlib.run_lines(impl, hops, env=pvlib.san_env({"PV_TMP": os.path.join(pvlib.VERIF, ".cache", "tmp")}), timeout=3000, stall=3000)
+        except Exception as e:
+            hres["out"] = e
+    th = threading.Thread(target=_huge, daemon=True)
+    th.start()
+    try:
+        run_rest(ctx)
+    finally:
+        th.join()
+        if isinstance(hres.get("out"), Exception):
+            raise hres["out"]
+        ctx.count("z.writehuge", len(hops), hops)
+        for o, x in zip(hops, hres["out"]):
+            n = int(o.split()[2])
+            if not x.startswith("ok ") and not x.startswith("skipped"):
+                pvlib.report_violation(ctx, "zwrite-huge:" + o, {"ops": [o], "impl": x[:300], "text": f"{n} bytes = 2^32 + {n - (1 << 32)} in ONE write() call: NUL bytes with a marker byte every 1048573 bytes"},
+                                       summary=f"WriteCompressed({o.split()[1]}) given {n} bytes (2^32 + {n - (1 << 32)}) in one write() call: the file {x[:100]}")
+                break
+
+
+def run_rest(ctx):
     rng = ctx.rng
     impl = os.path.join(ctx.bdir, "harness", "implcompress")
+    # bzip2: end of stream with a completely full staging buffer (input crafted by tools/craft_bz2.py): one write() call, then flush
+    import json as _json, craft_bz2, bz2 as _bz2
+    try:
+        cp = _json.load(open(os.path.join(pvlib.VERIF, "corpus", "bz2_full_staging.json")))
+        if craft_bz2.qualifies(cp["seed"], cp["total"]):
+            data = craft_bz2.data(cp["seed"], cp["total"])
+            o = f"z.write bzip2 w{len(data)},f {hx(data)}"
+            x = pvlib.run_lines(impl, [o], env=pvlib.san_env(), timeout=300)[0]
+            ctx.count("z.write.bz2-full-staging", 1, [o[:60]])
+            w = x.split()
+            okk = False
+            if w and w[0] == "ok":
+                try:
+                    okk = _bz2.decompress(pvlib.unhx(w[1])) == data
+                except Exception:
+                    okk = False
+            if not okk:
+                pvlib.report_violation(ctx, "zwrite-bz2-full-staging", {"ops": [f"z.write bzip2 w{len(data)},f <data>"], "generator": f"tools/craft_bz2.py data(seed={cp['seed']}, total={cp['total']})",
+                                       "impl": x[:200]},
+                                       summary=f"WriteCompressed(bzip2): one write() of {len(data)} bytes after which libbz2's output fills the 4096-byte staging buffer exactly, then flush(): "
+                                               f"{x[:80] if not x.startswith('ok') else 'the file does not expand to the bytes written'}")
+        else:
+            ctx.cov["bz2_full_staging_input"] = "does not qualify with this libbz2"
+    except FileNotFoundError:
+        ctx.cov["bz2_full_staging_input"] = "corpus file missing"
     # ---------------- writer
     ops = []
     for comp in ("gzip", "bzip2", "none"):
